@@ -8,7 +8,35 @@ TB = ("Trusted base: go/types+go/ssa (x/tools v0.29.0) front end, the govc VC ge
       "Assumed: A2 strings as byte sequences, A3/A4 value semantics of slices/maps (no aliasing between inputs), A5 globals written only in init, "
       "assumed contracts of external libraries listed per run in the evidence file. ")
 
+HALF = 'Build-time half only: what the templates emit from the compiled Output and what the runtime library does with it are outside the technique (no verifier for text/template; the runtime is an external module). '
 CLAIMS = {
+ "C02": dict(
+   technique="contract-based deductive verification: contracts on the real resolver chain and service compilation steps over go/ssa, SMT (strings, regex captures, arrays)",
+   text=("Proof that the compiled Output is a faithful, order-preserving image of each declared service: ArgResolver returns what the first supporting strategy returns and only asks strategies that support the argument; "
+         "each argument form is classified and compiled as documented (non-string primitive keeps its value, @name depends on exactly that service, !tagged t on exactly that tag, $gontainer / !value have no dependencies, other strings are patterns); "
+         "resolveArgs / serviceCalls / serviceTags keep length and order, serviceFields yields one field per key in strictly increasing name order, processService maps a todo service to a bare placeholder and any other service attribute by attribute, "
+         "StepCompileServices.Process yields one service per declaration sorted by name with the declared scope."),
+   note=(HALF + "Not covered: CompileServiceValue / serviceConstructor / serviceType splitting of a reference into import and symbol (word equations over regex captures time out), exporter.MustExport's Go literal. Resolving is treated as a function of the argument for one compilation (assumed contracts of the injected interfaces). " + TB),
+   design="DESIGN.md section 4 C02"),
+ "C03": dict(
+   technique="contract-based deductive verification: contracts on the real token factories, tokenizer and pattern resolver over go/ssa, SMT; regex language equivalence for the token grammars",
+   text=("Proof that chunks are classified by the first supporting factory (registered functions are prepended, so they come first), that %% is a literal percent, %name% a reference whose dependency list names exactly the referenced parameter, plain text a string token, "
+         "unexpected functions/tokens are rejected at build time, the tokenizer yields one token per chunk in order and accepts iff every chunk is accepted, a single token keeps its type (dependencyProvider of that token) and an empty token list is an error, "
+         "a pattern depends on exactly the parameters its tokens reference, parameters cannot depend on services or tags, and the built-in functions are exactly env/envInt/todo."),
+   note=(HALF + "Chunker.Chunks (rune loop with a string builder) is not under contract; toExpr has a trusted contract ([]rune conversions). What the emitted closures compute at run time is outside. " + TB),
+   design="DESIGN.md section 4 C03"),
+ "C04": dict(
+   technique="contract-based deductive verification: order/length-preservation contracts on the real tag and decorator compilation and merge functions over go/ssa, SMT",
+   text=("Proof that tags reach the Output with their names, priorities and order (serviceTags), that decorators are compiled one-to-one in declaration order with their tag and resolved arguments (StepCompileDecorators), "
+         "that merging appends tags and decorators in file order (C09 contracts), that !tagged t depends on exactly tag t, and that duplicate tags on one service are rejected."),
+   note=(HALF + "Priority-descending/name-ascending ordering of GetTaggedBy and the decorator call protocol live in the runtime library (assumed). Tag.UnmarshalYAML is under a safety contract only. " + TB),
+   design="DESIGN.md section 4 C04"),
+ "C15": dict(
+   technique="contract-based deductive verification: contracts on the real todo handling (validation exemption, placeholder compilation, declared-name sets, built-in function table) over go/ssa, SMT",
+   text=("Proof that services marked todo are exempt from attribute validation but must have a well-formed name, that processService compiles a todo service to a bare placeholder (name and Todo only, nothing resolved) regardless of its other attributes, "
+         "that the existence validators count todo entries as declared (declared-name sets look at names only), and that the built-in parameter functions are exactly env, envInt and todo bound to the generated helpers."),
+   note=(HALF + "What a todo parameter/service returns at run time, OverrideParam/OverrideService and lazy evaluation are generated-code/runtime behaviour. " + TB),
+   design="DESIGN.md section 4 C15"),
  "C08": dict(
    technique="contract-based deductive verification: functional contracts that determine results independently of map order (go/ssa + SMT) plus structural order-independence obligations on every raw map range of the SSA",
    text=("Every raw `range` over a map in /repo (the set is recomputed from the SSA on each run, zero annotations) must meet one of four criteria: point-wise stores at the loop key; stores at the loop value with a proved injectivity obligation; "
